@@ -41,6 +41,11 @@ CODE_THOROUGH = collections.OrderedDict([
     ("alter-open", w("ALTER TABLE t", "alter table s.t", "ALTER TABLE ONLY t")),
     ("alter-tail;", w("ADD CONSTRAINT c UNIQUE  ( a )  ;", "add foreign key  ( a )  references u  ( b )  ;", "ADD c int ;")),
 ])
+# lines inside a multi-line block comment that begin with a word the line machine reacts to in code
+INSIDE = collections.OrderedDict([
+    ("skip-words", w("use bigint if possible", "Insert order matters ;", "delete after review", "GO", "grant all on x", "USE x ;")),
+    ("set-words", w("SET a = 1 ;", "set x", "Set k = v ;")),
+])
 # only for `--` / `#` comments: block-comment markers inside the text
 MARKER_TEXTS = collections.OrderedDict([
     ("*/ then /*", w(" see */ and /* ", " old */ x /* new", " r */ /* s")),
@@ -152,6 +157,64 @@ def check_abstraction(ck, ctx):
     return forms
 
 
+SCRIPTS = collections.OrderedDict([
+    ("two tables and a sequence", [
+        "CREATE TABLE t (\n  a int,\n  b varchar(10) NOT NULL\n);\nCREATE SEQUENCE sq START WITH 1;\nCREATE TABLE u (\n  x int\n);\n",
+        "create table s.Users (\n  id bigint,\n  name text(5) NULL\n);\ncreate sequence s2 increment by 2;\ncreate table v (\n  k text\n);\n",
+        "CREATE TABLE IF NOT EXISTS x_1 (\n  k int,\n  v char(1) NOT NULL\n);\nCREATE SEQUENCE s.q MINVALUE 1;\nCREATE TABLE w (\n  z int\n);\n"]),
+    ("SET, skipped statements, ALTER over two lines, no final newline", [
+        "SET hive.x = 1;\nUSE db;\nCREATE TABLE t (a int);\nALTER TABLE t\n  ADD UNIQUE (a);\nGO\nCREATE TABLE u (x int)",
+        "set a = b;\nGRANT ALL ON t TO u;\ncreate table Tb (id int);\nalter table Tb\n  add primary key (id);\ngo\ncreate table v (k text)",
+        "SET k2=9;\nINSERT INTO t VALUES (1);\nCREATE TABLE s.q (z int);\nALTER TABLE s.q\n  ADD CHECK (z > 0);\nGO\nCREATE TABLE w (y int)"]),
+])
+
+
+def check_scripts(ck, ctx, lm):
+    """O-script: parse_data as a whole (its own line loop, the `more lines follow` argument, the code after the loop) evaluated
+    abstractly on exemplar scripts: a comment of each form inserted at every line position - and the same comment at a position and
+    again at the end - leaves the statements handed to the grammar and the returned entities unchanged"""
+    n = 0
+    forms = [("--", lambda t: ["--" + t]), ("#", lambda t: ["#" + t]), ("/* */", lambda t: ["/*" + t + " */"]),
+             ("block over three lines", lambda t: ["/*" + t, " CREATE TABLE zz (q1 int); GO", t + " */"])]
+    texts = [" some note", " drop it; ( a , b )", ""]
+
+    def ents(res):
+        return [x for x in res if not (isinstance(x, dict) and "comments" in x)] if isinstance(res, list) else res
+
+    for sname, scripts in SCRIPTS.items():
+        ref_h, ref_r = lm.run_script(W([scripts[i % 3] for i in range(6)]))
+        ref_r = ents(ref_r)
+        n_lines = scripts[0].count("\n") + 1
+        for fname, mk in forms:
+            bad = None
+            for text in texts:
+                for pos in range(n_lines + 1):
+                    for twice in (False, True):
+                        n += 1
+                        variants = []
+                        for sc in scripts:
+                            ls = sc.split("\n")
+                            ins = mk(text)
+                            out = ls[:pos] + ins + ls[pos:]
+                            if twice:
+                                out = out + ins if out[-1] != "" else out[:-1] + ins
+                            variants.append("\n".join(out))
+                        try:
+                            h, r = lm.run_script(W([variants[i % 3] for i in range(6)]))
+                            ok = same(list(h), list(ref_h)) and same(ents(r), ref_r)
+                            detail = "" if ok else f"statements {_short(h)!r}, entities {_short(ents(r))!r} instead of {_short(ref_h)!r}, {_short(ref_r)!r}"
+                        except (PyRaise, Raised) as e:
+                            ok, detail = False, f"raises {e}"
+                        except NonUniform as e:
+                            ok, detail = False, f"the exemplar scripts are treated differently: {e}"
+                        if not ok and bad is None:
+                            bad = (detail, repr(variants[0])[:260])
+            ck.ob("O-script", f"`{fname}` comment inserted at every line position ({sname})", bad is None,
+                  "the statements handed to the grammar and the returned entities must not change" + ("" if bad is None else "; " + bad[0]),
+                  "Parser.parse_data (evaluated abstractly as a whole)", witness=None if bad is None else bad[1])
+    ck.count("script_level_insertions", n)
+
+
 def run(ck, ctx):
     if ck.tier == "thorough":
         for k, v in TEXTS_THOROUGH.items():
@@ -218,9 +281,8 @@ def run(ck, ctx):
         the pending SET has been reported yet are the same state - compare them after a blank line (which does nothing else)"""
         if st["set_line"] is None:
             return st
-        blank = BLANK if any(isinstance(v, W) for v in st.values()) or True else ""
         try:
-            parsed, nxt = lm.step(st, blank if _is_abstract(st) else "", True)
+            parsed, nxt = lm.step(st, BLANK if _is_abstract(st) else "", True)
         except NonUniform:
             return st
         return nxt if not parsed else st
@@ -397,6 +459,7 @@ def run(ck, ctx):
                 else:
                     seq = [(comment_only(dk, text), text), (comment_only("inside", TEXTS["sql-like"]), TEXTS["sql-like"]),
                            (comment_only("inside", TEXTS["dashes"]), TEXTS["dashes"]), (comment_only("inside", TEXTS["plain"]), TEXTS["plain"]),
+                           (INSIDE["skip-words"], INSIDE["skip-words"]), (INSIDE["set-words"], INSIDE["set-words"]),
                            (comment_only("  */" if dk.startswith(" ") else "*/", text), text)]
 
                     def one_block(st2, seq):
@@ -464,6 +527,7 @@ def run(ck, ctx):
         else:
             ck.ob("O-comment", key, True, f"same statements, registers and results from every one of the {n_states} reachable joint states",
                   "Parser.process_line (evaluated abstractly)")
+    check_scripts(ck, ctx, lm)
     ck.states, ck.transitions = n_states, n_trans
     ck.count("joint_machine_states", n_states)
     ck.count("line_applications", n_trans)
